@@ -9,8 +9,13 @@ use serde_json::{json, Value as J};
 use std::collections::HashMap;
 use uuid::Uuid;
 
+thread_local! {
+    /// a sub-second offset (in milliseconds) added to every clock reading `ts` hands out: edit histories normally run on whole
+    /// seconds, some pairs put the two replicas at different instants of the same second
+    static SUB_MS: std::cell::Cell<u32> = std::cell::Cell::new(0);
+}
 fn ts(secs: i64) -> chrono::NaiveDateTime {
-    chrono::DateTime::from_timestamp(secs, 0).unwrap().naive_utc()
+    chrono::DateTime::from_timestamp(secs, SUB_MS.with(|c| c.get()) * 1_000_000).unwrap().naive_utc()
 }
 fn uid(n: u64) -> Uuid {
     Uuid::from_u128(n as u128)
@@ -75,6 +80,10 @@ pub enum Edit {
     ToggleGroupExpiry(u64),  // flip the group's expiry flag, bump its usage count, set expiry and modification time
     ToggleEntryExpiry(u64),  // the same for an entry (committed to the history)
     EditEntryNoHistory(u64), // a writer that records no history: history = None, a field and the modification time change
+    SetEntryUncommitted(u64, u8), // one of two fixed values, new modification time, not committed to the history (a revert to an older value is possible)
+    EditEntrySilently(u64),  // a field changes, the modification time does not, nothing is committed (a careless writer)
+    UseEntry(u64),           // merely used: usage count and last access time change, nothing else
+    UseGroup(u64),           // the same for a group
 }
 
 fn find_group_mut<'a>(g: &'a mut Group, id: u64) -> Option<&'a mut Group> {
@@ -172,6 +181,41 @@ pub fn apply(db: &mut Database, ed: &Edit, at: i64, fresh: &mut u64) -> bool {
                     e.history = Some(History::default());
                 }
                 e.history.as_mut().unwrap().add_entry(snap);
+                true
+            } else {
+                false
+            }
+        }
+        Edit::SetEntryUncommitted(id, v) => {
+            if let Some(e) = find_entry_mut(&mut db.root, *id) {
+                e.fields.insert("UserName".into(), Value::Unprotected(format!("fixed{}", v)));
+                e.times.set_last_modification(ts(at));
+                true
+            } else {
+                false
+            }
+        }
+        Edit::EditEntrySilently(id) => {
+            if let Some(e) = find_entry_mut(&mut db.root, *id) {
+                e.fields.insert("URL".into(), Value::Unprotected(format!("silent@{}", at)));
+                true
+            } else {
+                false
+            }
+        }
+        Edit::UseEntry(id) => {
+            if let Some(e) = find_entry_mut(&mut db.root, *id) {
+                e.times.usage_count += 1;
+                e.times.set_last_access(ts(at));
+                true
+            } else {
+                false
+            }
+        }
+        Edit::UseGroup(id) => {
+            if let Some(g) = find_group_mut(&mut db.root, *id) {
+                g.times.usage_count += 1;
+                g.times.set_last_access(ts(at));
                 true
             } else {
                 false
@@ -343,6 +387,9 @@ pub fn alphabet(db: &Database) -> Vec<Edit> {
         out.push(Edit::DeleteEntry(*e));
         out.push(Edit::ToggleEntryExpiry(*e));
         out.push(Edit::EditEntryNoHistory(*e));
+        out.push(Edit::SetEntryUncommitted(*e, 1));
+        out.push(Edit::EditEntrySilently(*e));
+        out.push(Edit::UseEntry(*e));
         for g in &groups {
             out.push(Edit::MoveEntry(*e, *g));
         }
@@ -353,6 +400,7 @@ pub fn alphabet(db: &Database) -> Vec<Edit> {
         out.push(Edit::RenameGroup(*g));
         out.push(Edit::TouchGroup(*g));
         out.push(Edit::ToggleGroupExpiry(*g));
+        out.push(Edit::UseGroup(*g));
         if *g != idn(&db.root.uuid) {
             out.push(Edit::DeleteGroup(*g, true));
             out.push(Edit::DeleteGroup(*g, false));
@@ -382,8 +430,8 @@ impl Intern {
         let n = self.other.len() as u64;
         let o = *self.other.entry(s).or_insert(n);
         json!({
-            "m": t.get_last_modification().map(|x| x.and_utc().timestamp()),
-            "l": t.get_location_changed().map(|x| x.and_utc().timestamp()),
+            "m": t.get_last_modification().map(|x| x.and_utc().timestamp_millis()),
+            "l": t.get_location_changed().map(|x| x.and_utc().timestamp_millis()),
             "o": o,
         })
     }
@@ -416,7 +464,7 @@ impl Intern {
     fn db(&mut self, d: &Database) -> J {
         json!({
             "root": self.group(&d.root),
-            "tombs": d.deleted_objects.objects.iter().map(|o| json!([idn(&o.uuid), o.deletion_time.and_utc().timestamp()])).collect::<Vec<_>>(),
+            "tombs": d.deleted_objects.objects.iter().map(|o| json!([idn(&o.uuid), o.deletion_time.and_utc().timestamp_millis()])).collect::<Vec<_>>(),
         })
     }
 }
@@ -496,23 +544,31 @@ fn run_pair_on(ctx: &mut Ctx, anc: &Database, ea: &[Edit], eb: &[Edit], tags: Ve
 
 /// `b0`: the clock reading of the source side's first edit (the destination side's edits happen at 101, 103, …)
 fn run_pair_at(ctx: &mut Ctx, anc: &Database, ea: &[Edit], eb: &[Edit], tags: Vec<String>, b0: i64) -> bool {
+    run_pair_sub(ctx, anc, ea, eb, tags, b0, 0, 0)
+}
+
+/// `ms_a`, `ms_b`: the sub-second instant (milliseconds) of the destination side's and of the source side's edits
+fn run_pair_sub(ctx: &mut Ctx, anc: &Database, ea: &[Edit], eb: &[Edit], tags: Vec<String>, b0: i64, ms_a: u32, ms_b: u32) -> bool {
     let mut a = anc.clone();
     let mut b = anc.clone();
     let (mut fa, mut fb) = (1000u64, 2000u64);
     let mut ok = true;
+    SUB_MS.with(|c| c.set(ms_a));
     for (i, e) in ea.iter().enumerate() {
         ok &= apply(&mut a, e, 101 + 2 * i as i64, &mut fa);
     }
+    SUB_MS.with(|c| c.set(ms_b));
     for (i, e) in eb.iter().enumerate() {
         ok &= apply(&mut b, e, b0 + 2 * i as i64, &mut fb);
     }
+    SUB_MS.with(|c| c.set(0));
     if !ok {
         return true;
     }
     let mut it = Intern { content: HashMap::new(), other: HashMap::new() };
     let dst_j = it.db(&a);
     let src_j = it.db(&b);
-    let t0 = Times::now().and_utc().timestamp();
+    let t0 = Times::now().and_utc().timestamp_millis();
     let (m1, d1) = guarded_merge(&a, &b, &mut it);
     let timed_out = m1["outcome"] == "timeout";
     let (m2, ms) = match &d1 {
@@ -561,6 +617,58 @@ pub fn run(ctx: &mut Ctx) {
             };
             if same_node && !run_pair_t(ctx, ea, eb, vec!["pairs-1x1-same-second".into()], true) {
                 ctx.out_flush_and_exit();
+            }
+        }
+    }
+    // the same pairs at two instants of one second: the later instant wins although the seconds agree
+    for ea in &singles {
+        for eb in &singles {
+            let same_node = match (ea.first(), eb.first()) {
+                (Some(Edit::EditEntry(x)), Some(Edit::DeleteEntry(y))) | (Some(Edit::SetEntry(x, _)), Some(Edit::DeleteEntry(y)))
+                | (Some(Edit::EditEntryUncommitted(x)), Some(Edit::DeleteEntry(y))) | (Some(Edit::RenameGroup(x)), Some(Edit::DeleteGroup(y, _)))
+                | (Some(Edit::TouchGroup(x)), Some(Edit::DeleteGroup(y, _))) | (Some(Edit::EditEntry(x)), Some(Edit::EditEntry(y)))
+                | (Some(Edit::RenameGroup(x)), Some(Edit::RenameGroup(y))) | (Some(Edit::MoveEntry(x, _)), Some(Edit::MoveEntry(y, _))) => x == y,
+                _ => false,
+            };
+            if same_node {
+                for (ms_a, ms_b) in [(200u32, 700u32), (700, 200)] {
+                    if !run_pair_sub(ctx, &base, ea, eb, vec!["pairs-1x1-same-second-subsecond".into()], 101, ms_a, ms_b) {
+                        ctx.out_flush_and_exit();
+                    }
+                }
+            }
+        }
+    }
+    // a revert that was not committed: the losing side's current value equals an older version of its own history
+    for e in [10u64, 11] {
+        let hist = vec![Edit::SetEntry(e, 1), Edit::SetEntry(e, 0), Edit::SetEntryUncommitted(e, 1)];
+        for other in [vec![Edit::EditEntry(e)], vec![Edit::SetEntry(e, 0)], vec![]] {
+            // the reverting side loses (the other side's edit is later) and wins (it is earlier)
+            for (ea, eb, b0) in [(&hist, &other, 300i64), (&other, &hist, 300), (&hist, &other, 102)] {
+                if !run_pair_at(ctx, &base, ea, eb, vec!["uncommitted-revert".into()], b0) {
+                    ctx.out_flush_and_exit();
+                }
+            }
+        }
+    }
+    // a chain of nested empty groups, all deleted on the source side, tombstones listed outermost first or innermost first:
+    // the work queue of merge_deletions has to come back to the outer groups again and again
+    for d in 2..=ctx.count(6, 9) as u64 {
+        let mut anc = Database::new(Default::default());
+        anc.root = new_group(1, 100, "Root");
+        anc.root.children.push(Node::Group(new_group(2, 100, "keep")));
+        let mut chain = new_group(2 + d, 100, "c");
+        for id in (3..2 + d).rev() {
+            let mut g = new_group(id, 100, "c");
+            g.children.push(Node::Group(chain));
+            chain = g;
+        }
+        anc.root.children.push(Node::Group(chain));
+        for parent_first in [true, false] {
+            for ea in [vec![], vec![Edit::TouchGroup(2)], vec![Edit::AddGroup(2)]] {
+                if !run_pair_at(ctx, &anc, &ea, &[Edit::DeleteGroup(3, parent_first)], vec![format!("deletion-chain:{}", d)], 102) {
+                    ctx.out_flush_and_exit();
+                }
             }
         }
     }
